@@ -585,6 +585,131 @@ func SkipRows(fn *ssa.Function) []string {
 			}
 		}
 	}
+	// when a field is read relative to the effects of the function: for loads of a path whose root object is
+	// also the receiver or an argument of a call of this function (which may change it), the effect that
+	// precedes the load on the dominator tree. `n := len(x.items)` moved in front of the loop that appends to
+	// x.items reads another number.
+	{
+		rootOfPath := func(v ssa.Value) ssa.Value {
+			for i := 0; i < 10; i++ {
+				switch y := v.(type) {
+				case *ssa.FieldAddr:
+					v = y.X
+					continue
+				case *ssa.IndexAddr:
+					v = y.X
+					continue
+				case *ssa.UnOp:
+					if y.Op.String() == "*" {
+						v = y.X
+						continue
+					}
+				}
+				break
+			}
+			return v
+		}
+		touchedRoots := map[ssa.Value]bool{}
+		lastEff := map[*ssa.BasicBlock]string{}
+		type pos struct {
+			b *ssa.BasicBlock
+			i int
+		}
+		effAt := map[pos]string{}
+		for _, b := range fn.Blocks {
+			for i, in := range b.Instrs {
+				if !isWork(in) {
+					continue
+				}
+				name := ""
+				if call, ok := in.(*ssa.Call); ok {
+					if bi, isB := call.Call.Value.(*ssa.Builtin); isB {
+						name = bi.Name()
+					} else {
+						name = shortCallee(&call.Call)
+					}
+					if call.Call.IsInvoke() {
+						touchedRoots[rootOfPath(call.Call.Value)] = true
+					}
+					for _, a := range call.Call.Args {
+						if _, isPtr := a.Type().Underlying().(*types.Pointer); isPtr {
+							touchedRoots[rootOfPath(a)] = true
+						}
+					}
+				} else {
+					name = strings.TrimPrefix(fmt.Sprintf("%T", in), "*ssa.")
+					if st, ok := in.(*ssa.Store); ok {
+						touchedRoots[rootOfPath(st.Addr)] = true
+					}
+				}
+				effAt[pos{b, i}] = name
+				lastEff[b] = name
+			}
+		}
+		seenRead := map[string]bool{}
+		for _, b := range fn.Blocks {
+			prev := ""
+			for i, in := range b.Instrs {
+				if e, ok := effAt[pos{b, i}]; ok {
+					prev = e
+					continue
+				}
+				ld, ok := in.(*ssa.UnOp)
+				if !ok || ld.Op.String() != "*" {
+					continue
+				}
+				if _, isField := ld.X.(*ssa.FieldAddr); !isField {
+					continue
+				}
+				root := rootOfPath(ld.X)
+				if _, isAlloc := root.(*ssa.Alloc); isAlloc || !touchedRoots[root] {
+					continue
+				}
+				// the effects that may run before the load within the same iteration of the loops that contain it:
+				// those earlier in its block and those of every block it is reachable from without a back edge
+				set := map[string]bool{}
+				for k := 0; k < i; k++ {
+					if e, ok := effAt[pos{b, k}]; ok {
+						set[e] = true
+					}
+				}
+				seenB := map[*ssa.BasicBlock]bool{b: true}
+				stack := []*ssa.BasicBlock{b}
+				for len(stack) > 0 {
+					x := stack[len(stack)-1]
+					stack = stack[:len(stack)-1]
+					for _, pr := range x.Preds {
+						back := false
+						for _, l := range loops {
+							if l.Header == x && l.Blocks[pr] && l.Blocks[b] {
+								back = true // a back edge of a loop the load is in: the previous iteration
+							}
+						}
+						if back || seenB[pr] {
+							continue
+						}
+						seenB[pr] = true
+						for k := range pr.Instrs {
+							if e, ok := effAt[pos{pr, k}]; ok {
+								set[e] = true
+							}
+						}
+						stack = append(stack, pr)
+					}
+				}
+				_ = prev
+				p := strings.Join(sortedKeys(set), ",")
+				if p == "" {
+					p = "nothing"
+				}
+				row := "reads " + clip(argText(ld), 100) + " after {" + clip(p, 160) + "}"
+				if !seenRead[row] {
+					seenRead[row] = true
+					out = append(out, row)
+				}
+			}
+		}
+	}
 	// cleanup coverage: returns that can be reached without having registered a defer
 	for _, b := range fn.Blocks {
 		for _, in := range b.Instrs {
@@ -809,17 +934,20 @@ func skipTableRule(c *core.Ctx, g skipGroup) {
 // look inside them. Touching them puts them (and what they call) into the scope of the tables.
 // ---------------------------------------------------------------------------------------------
 
+// an entry whose function name starts with "+" is anchored together with what it calls (small model and queue
+// functions); the others are anchored alone (functions that wire everything together)
 var anchorTable = map[string][][2]string{
 	"C08": {{"controller/config", "CreateWithConfig"}, {"controller/config", "Options.AddFlags"}},
 	"C09": {{"controller/config", "CreateWithConfig"}, {"controller/config", "Options.AddFlags"}},
 	"C12": {{"controller/config", "CreateWithConfig"}, {"controller/config", "Options.AddFlags"}},
-	"C13": {{"controller/config", "CreateWithConfig"}, {"controller/config", "Options.AddFlags"}, {"utils/workqueue", "New"}},
+	"C13": {{"controller/config", "CreateWithConfig"}, {"controller/config", "Options.AddFlags"}, {"utils/workqueue", "New"},
+		{"utils", "+queue.RunWithContext"}, {"utils", "+queue.Add"}, {"utils", "+queue.AddAfter"}, {"utils", "+queue.Notify"}, {"utils", "+queue.Remove"}, {"utils", "+NewRateLimitingQueue"}, {"utils", "+NewFailureRateLimitingQueue"}, {"utils", "+NewQueue"}},
 	"C17": {{"controller/config", "CreateWithConfig"}, {"controller/config", "Options.AddFlags"}},
 	"C19": {{"controller/config", "CreateWithConfig"}, {"controller/config", "Options.AddFlags"}},
 	"C03": {{"controller/config", "CreateWithConfig"}},
 	"C11": {{"controller/config", "CreateWithConfig"}, {"converters/ingress/annotations", "updater.buildBackendDynamic"}},
 	"C07": {{"converters/ingress/annotations", "updater.buildGlobalPathTypeOrder"}},
-	"C04": {{"converters/ingress/annotations", "updater.buildGlobalPathTypeOrder"}, {"converters/ingress", "converter.addHeaderMatch"}, {"haproxy/types", "PathLink.AddHeadersMatch"}, {"haproxy/types", "PathLink.WithHeadersMatch"}},
+	"C04": {{"converters/ingress/annotations", "updater.buildGlobalPathTypeOrder"}, {"converters/ingress", "converter.addHeaderMatch"}, {"haproxy/types", "+PathLink.AddHeadersMatch"}, {"haproxy/types", "+PathLink.WithHeadersMatch"}, {"haproxy/types", "+PathLink.WithHostname"}, {"haproxy/types", "+CreatePathLink"}, {"haproxy/types", "+CreateHostPathLink"}, {"haproxy/types", "+PathLink.Equals"}, {"haproxy/types", "+PathLink.Key"}},
 	"C10": {{"controller/config", "CreateWithConfig"}},
 }
 
@@ -828,11 +956,20 @@ func init() {
 		p := p
 		addRule(p, &core.Rule{ID: p + ".anchors", Floor: 1, Run: func(c *core.Ctx) {
 			for _, a := range anchorTable[p] {
-				if fn := c.Env.Func(a[0], a[1]); fn != nil && fn.Blocks != nil {
-					c.TouchLeaf(fn)
-					c.Held("anchor "+a[0]+"."+a[1], c.Pos(fn.Pos()), "in the scope of the generated tables of this property (the function itself, not what it calls)")
+				name, deep := a[1], false
+				if strings.HasPrefix(name, "+") {
+					name, deep = name[1:], true
+				}
+				if fn := c.Env.Func(a[0], name); fn != nil && fn.Blocks != nil {
+					if deep {
+						c.Touch(fn)
+						c.Held("anchor "+a[0]+"."+name, c.Pos(fn.Pos()), "in the scope of the generated tables of this property, with what it calls")
+					} else {
+						c.TouchLeaf(fn)
+						c.Held("anchor "+a[0]+"."+name, c.Pos(fn.Pos()), "in the scope of the generated tables of this property (the function itself, not what it calls)")
+					}
 				} else {
-					c.MissingAnchor(a[0] + "." + a[1])
+					c.MissingAnchor(a[0] + "." + name)
 				}
 			}
 		}, Doc: "Reviewed anchors: functions that implement this property although no other rule of it looks inside them — the binding of the command-line options (Options.AddFlags) and their translation into the configuration of the cache, the converters and the instance (CreateWithConfig), the construction of the work queue, the slot configuration of a backend, the header filter of a path link. Listing them here puts the functions themselves (not what they call) into the scope of the generated tables."})
